@@ -266,7 +266,9 @@ func genValue(t *rapid.T) value {
 
 // segments that start with a dot are ordinary names. (No segment starts with two dots: a query prefix ".." would be a
 // parent reference when read as a path, which C18 wants refused.)
-var keySegments = []string{"a", "b", "ab", "a-b", "ä", ".h", "a.b", "a b"}
+// (segments with a colon: the part of a key behind the database name may hold further colons - host:port, say - and two
+// such keys may agree up to the colon)
+var keySegments = []string{"a", "b", "ab", "a-b", "ä", ".h", "a.b", "a b", "h:1", "h:2", "a:"}
 
 func genKey(t *rapid.T) string {
 	n := rapid.IntRange(1, 3).Draw(t, "segs")
